@@ -21,7 +21,10 @@ Rng(s) == {s[i] : i \in DOMAIN s}
 
 Ids == 1..9
 NoSub == [issued |-> FALSE, owner |-> "none", filter |-> {}, started |-> 0, dur |-> 0, errors |-> 0,
-          unsub |-> FALSE, ended |-> FALSE, endTo |-> FALSE]
+          unsub |-> FALSE, ended |-> FALSE, endTo |-> FALSE, unsubAt |-> 0, gone |-> FALSE]
+\* housekeeping that runs two ticks or more after an Unsubscribe has removed that subscription: the provider no longer
+\* knows it (one tick is the grace period of the implementation; "more than one" is demanded with a margin)
+Removable(s, t) == s.issued /\ s.unsub /\ (t - s.unsubAt) >= 200
 Alive(s, t) == s.issued /\ ~s.unsub /\ ~s.ended /\ (t - s.started) < s.dur /\ s.errors < MaxErrors
 
 GrantOK(req, granted) == granted > 0 /\ granted <= MaxDur /\ (req > 0 => granted <= req)
@@ -38,11 +41,13 @@ Step(rec) ==
          /\ st' = IF rec.res = "ok"
                   THEN [st EXCEPT ![rec.id] = [issued |-> TRUE, owner |-> rec.c, filter |-> Rng(rec.f), started |-> rec.now,
                                                dur |-> rec.granted, errors |-> 0, unsub |-> FALSE, ended |-> FALSE,
-                                               endTo |-> rec.endTo]]
+                                               endTo |-> rec.endTo, unsubAt |-> 0, gone |-> FALSE]]
                   ELSE st
     [] rec.act \in {"Renew", "GetStatus", "Unsubscribe"} ->
          LET s == st[rec.id] IN
          /\ Clause("unknown_subscription_faults", ~s.issued => rec.res = "fault")
+         /\ Clause("removed_subscription_faults", s.gone => rec.res = "fault")
+         /\ Clause("removed_subscription_changes_nothing", s.gone => rec.table = Traces[tid][l].table)
          /\ Clause("unknown_subscription_changes_nothing", ~s.issued => rec.table = Traces[tid][l].table)
          /\ Clause("live_subscription_is_served", Alive(s, rec.now) => rec.res = "ok")
          /\ Clause("granted_within_request_and_maximum",
@@ -53,7 +58,8 @@ Step(rec) ==
          /\ Clause("no_notification_without_report", rec.sent = <<>>)
          /\ st' = IF rec.res # "ok" THEN st
                   ELSE IF rec.act = "Renew" THEN [st EXCEPT ![rec.id].started = rec.now, ![rec.id].dur = rec.granted]
-                  ELSE IF rec.act = "Unsubscribe" THEN [st EXCEPT ![rec.id].unsub = TRUE]
+                  ELSE IF rec.act = "Unsubscribe" THEN [st EXCEPT ![rec.id].unsub = TRUE,
+                                                                  ![rec.id].unsubAt = IF st[rec.id].unsub THEN @ ELSE rec.now]
                   ELSE st
     [] rec.act = "Report" ->
          LET expect == {i \in Ids : Alive(st[i], rec.now) /\ rec.a \in st[i].filter}
@@ -68,7 +74,7 @@ Step(rec) ==
     [] rec.act = "ReportDuring" ->
          \* rec.sent is in wire order; the event (Unsubscribe of rec.j / Tick) happened while the first notification was
          \* on its way: the first one was live before, every later one is live after the event, at its own send time
-         LET st1 == IF rec.ev = "Unsubscribe" /\ st[rec.j].issued /\ rec.evres = "ok" THEN [st EXCEPT ![rec.j].unsub = TRUE] ELSE st
+         LET st1 == IF rec.ev = "Unsubscribe" /\ st[rec.j].issued /\ rec.evres = "ok" THEN [st EXCEPT ![rec.j].unsub = TRUE, ![rec.j].unsubAt = IF st[rec.j].unsub THEN @ ELSE rec.now] ELSE st
              Match(s, i, t) == Alive(s[i], t) /\ rec.a \in s[i].filter
              got == {x.id : x \in SentOf(rec, rec.a)} IN
          /\ Clause("delivered_only_to_subscriptions_live_at_send_time",
@@ -89,7 +95,11 @@ Step(rec) ==
                    \A x \in SentOf(rec, "End") : x.addr = IF st[x.id].endTo THEN "end" ELSE "notify")
          /\ Clause("only_end_messages", \A x \in Rng(rec.sent) : x.kind = "End")
          /\ st' = [i \in Ids |-> [st[i] EXCEPT !.ended = TRUE]]
-    [] OTHER ->   \* Tick, Housekeeping
+    [] rec.act = "Housekeeping" ->
+         /\ Clause("no_notification_without_report", rec.sent = <<>>)
+         /\ Clause("housekeeping_removes_unsubscribed", \A i \in Ids : Removable(st[i], rec.now) => i \notin Rng(rec.table))
+         /\ st' = [i \in Ids |-> IF Removable(st[i], rec.now) THEN [st[i] EXCEPT !.gone = TRUE] ELSE st[i]]
+    [] OTHER ->   \* Tick
          /\ Clause("no_notification_without_report", rec.sent = <<>>)
          /\ st' = st
 
